@@ -382,7 +382,7 @@ theorem conforms_inst (resp : Bool) (f : Fields) (a : Area) (s : TcpSig) (hwf : 
       · exact .inl h
       · right; simp only [modelSig, ver]; exact h.symm
     · simp only [modelSig]; rw [hlay, hc.layout]
-    · simp only [modelSig]; rw [hq]
+    · simp only [modelSig]; rw [hq, badQ_parsed f a hpa, List.append_nil]
       exact quirks_reach f a hwf hpad hamb hsyn hnrst hnfin s.quirks (hmask ▸ hc.quirks) hsafe
     · unfold PclassOk
       have hp := hc.pclass
